@@ -29,6 +29,11 @@
 
 
 #define MRB_BUFFER_SIZE (64 * 1024 * 1024)
+#if defined(JLS_VERIF) && defined(JLS_VERIF_MRB_BUFFER_SIZE)
+// verification hook: allow a small message queue so that wrap-around and overflow are reachable
+#undef MRB_BUFFER_SIZE
+#define MRB_BUFFER_SIZE (JLS_VERIF_MRB_BUFFER_SIZE)
+#endif
 
 
 struct jls_twr_s {
